@@ -561,7 +561,7 @@ def case_adm(R):
                       'icon <x-icon name="a"/> after <b>bold</b>', '<svg width="9"><circle r="8"/><rect width="1"/></svg> pic', "m <math><mi/><mo/></math> n", "br <br/> img <img src=\"i.png\"/> div <div/> tail"]) for _ in range(R.randint(0, 2))]
     bare = R.choice([None, None, "bare **text** &#42;x&#42;", "- item one\n- item two", "<!-- a comment inside the admonition -->"]) if paras else R.choice(["bare **text**", "- item one\n- item two", "x &#95;y&#95;"])
     title = R.choice([None, "My *title*", "T &amp; U", "&#42;T&#42;", "plain"])
-    return {"kind": "adm", "classes": R.choice(["admonition", "admonition note", "warning admonition x-y", "admonition  two  spaces"]), "name": R.choice([None, None, "adm-name", "Name With Caps", "n#1", 'q"uote']), "title": title,
+    return {"kind": "adm", "classes": R.choice(["admonition", "admonition note", "warning admonition x-y", "admonition  two  spaces", "admonition\twarning", "admonition\n     note", "tip\x0cadmonition", "admonition\r\nnote"]), "name": R.choice([None, None, "adm-name", "Name With Caps", "n#1", 'q"uote']), "title": title,
             "title_tag": R.choice(["p", "div"]), "title_class": R.choice(["title", "admonition-title", "title extra", "title", "extra admonition-title"] + NON_TITLE_CLASSES), "paras": paras, "bare": bare, "img": R.random() < 0.3, "tagcase": R.choice(["lower", "lower", "upper", "mixed"]), "unclosed": R.random() < 0.3, "twice": R.random() < 0.3}
 
 
